@@ -259,6 +259,34 @@ fn run_adf(seed: u64, budget: usize) -> ! {
     out(None, checked)
 }
 
+// ------------------------------------------------------------------ counting-guided stable search (C04)
+// bounded stand-in for the completeness / each-once clauses of C04 (the pruning recursion two_val_model_counts_logic is not
+// under contract): ADFs with 2..6 statements, both heuristics, against the brute-force stable models
+fn run_c04(seed: u64, budget: usize) -> ! {
+    let mut rng = Rng(seed.wrapping_mul(0x9E3779B97F4A7C15) | 1);
+    let mut checked = 0;
+    for round in 0..budget {
+        if n_found() >= 1 { break; }
+        let n = 2 + rng.below(5);
+        let fs: Vec<F> = (0..n).map(|_| gen_f(&mut rng, n, 1 + (round % 3))).collect();
+        let mut text = String::new();
+        for i in 0..n { text.push_str(&format!("s({}).", name(i))); }
+        for i in 0..n { text.push_str(&format!("ac({},{}).", name(i), show(&fs[i]))); }
+        let parser = AdfParser::default();
+        if parser.parse()(&text).is_err() { continue; }
+        let stable: Vec<V3> = sorted(all_v3(n).into_iter().filter(|v| v.iter().all(|x| x.is_some()) && { let r: Vec<F> = fs.iter().map(|f| reduct(f, v)).collect(); lfp(&r) == *v }).collect());
+        for which in ["a", "b"] {
+            let mut adf = Adf::from_parser(&parser);
+            let got: Vec<V3> = if which == "a" { adf.stable_count_optimisation_heu_a().map(|v| tvs(&v)).collect() } else { adf.stable_count_optimisation_heu_b().map(|v| tvs(&v)).collect() };
+            if sorted(got.clone()) != stable || got.len() != stable.len() {
+                record(format!("C04 stable_count_optimisation_heu_{} on ADF `{}`: got {:?} expected {:?}", which, text, got, stable));
+            }
+        }
+        checked += 1;
+    }
+    out(None, checked)
+}
+
 // ------------------------------------------------------------------ nogoods (C18)
 fn run_ng(seed: u64, budget: usize) -> ! {
     let mut rng = Rng(seed.wrapping_mul(0xA24BAED4963EE407) | 1);
@@ -389,7 +417,7 @@ fn main() {
     let _ = (BTreeMap::<u8, u8>::new(), HashMap::<u8, u8>::new());
     match a.get(1).map(|s| s.as_str()) {
         Some("bdd") => run_bdd(seed, budget), Some("adf") => run_adf(seed, budget), Some("ng") => run_ng(seed, budget), Some("iters") => run_iters(seed, budget),
-        Some("persist") => run_persist(seed, budget), Some("mirror") => run_mirror(seed, budget),
+        Some("c04") => run_c04(seed, budget), Some("persist") => run_persist(seed, budget), Some("mirror") => run_mirror(seed, budget),
         _ => { eprintln!("usage: verif_replay <bdd|adf|ng|iters|persist|mirror> <seed> <budget>"); std::process::exit(2) }
     }
 }
